@@ -23,7 +23,7 @@ import gen
 import gen_psbt
 
 PROP = "C17"
-MODS = ["EmbitModel.Props.C17", "EmbitModel.Props.C17X", "EmbitModel.Props.C17Y", "EmbitModel.Props.C17Z"]
+MODS = ["EmbitModel.Props.C17", "EmbitModel.Props.C17X", "EmbitModel.Props.C17Y", "EmbitModel.Props.C17Z", "EmbitModel.Props.C17V"]
 
 T_BASE, T_PER_BYTE = 0.30, 90e-6          # seconds (tracemalloc slows the interpreter ~3x)
 M_BASE, M_PER_BYTE = 1_500_000, 1500      # bytes of traced peak
@@ -677,6 +677,108 @@ def bin_cost(c, n):
                         "c17.psbtsteps %d %s" % (comp, hx(b)), lambda L: 7 * L + 12)
 
 
+def view_cost(c, n):
+    """Props/C17V: the seeking loops of the streaming views (Model/ViewCost.lean). On the real code a counting BytesIO
+    counts the stream calls of GlobalLTransactionView.num_vout_offset, PSETView._hash_to and PSBTView._skip_scope on
+    valid PSBT / PSET bytes and on the hostile psbt_targeted / pset_targeted mutants. REQUIRED (violation otherwise):
+    embit's count stays inside the PROVED bound (9(|b|/41+1)+4, 2((|b|-pos)/32+1), 7((|b|-pos)/2+1)). Correspondence:
+    same value / same exception-or-not as the instrumented model (whose own counts are checked against the bound)."""
+    import io, hashlib
+    from embit.psbtview import PSBTView
+    from embit.liquid.psetview import PSETView, GlobalLTransactionView
+
+    class CS(io.BytesIO):
+        n = 0
+
+        def read(self, *a):
+            self.n += 1
+            return super().read(*a)
+
+        def seek(self, *a):
+            self.n += 1
+            return super().seek(*a)
+
+    def run_one(kind, b, call, line, bound):
+        s = CS(b)
+        try:
+            val = call(s)
+        except RecursionError:
+            return
+        except Exception:
+            val = "none"
+        L = len(b)
+        rec = {"op": line.split(" ")[0], "line": line[:200], "size": L, "stream_calls": s.n}
+        c.count((kind, line), nontrivial=True)
+        c.tally("cost.%s:%s" % (kind, "raised" if val == "none" else "returned"))
+        if s.n > bound:
+            c.fail("%s: %d stream calls on %d bytes (proved bound of the model: %d)" % (kind, s.n, L, bound), rec)
+
+        def canon(o, calls=s.n):
+            t = o.split(" ")
+            if len(t) != 4 or t[0] != "ok":
+                return o
+            try:
+                ms = int(t[2])
+            except ValueError:
+                return o
+            if ms > bound:
+                return "model-exceeds-proved-bound " + o
+            c.tally("cost.%s:embit-calls-%s-model-steps" % (kind, "le" if calls <= ms else "gt"))
+            return "ok * * " + t[3]
+        c.expect(line, "ok * * %s" % val, rec, proven=False, canon=canon)
+
+    def nvo(off):
+        return lambda s: str(GlobalLTransactionView(s, off).num_vout_offset)
+
+    def hashto(l, pos):
+        def f(s):
+            v = PSETView.__new__(PSETView)
+            v.stream = s
+            io.BytesIO.seek(s, pos)
+            try:
+                v._hash_to(hashlib.sha256(), l)
+            except Exception:
+                return "0"
+            return "1"
+        return f
+
+    def skipscope(pos):
+        def f(s):
+            v = PSBTView.__new__(PSBTView)
+            v.stream = s
+            io.BytesIO.seek(s, pos)
+            return str(pos + v._skip_scope())
+        return f
+
+    def tx_off(b):
+        # magic, key 01 00, compact length of the global transaction
+        if len(b) > 7 and b[5:7] == b"\x01\x00":
+            return 7 + {0xfd: 3, 0xfe: 5, 0xff: 9}.get(b[7], 1)
+        return 5
+
+    k = max(3, n // 130)
+    cases = []
+    for i in range(k):
+        g = gen_psbt.gen_psbt(c.rng)
+        b = g["bytes"]
+        cases.append(("valid", b))
+        cases += [(kd, bb) for (kd, bb) in psbt_targeted(c.rng, b)[:3]]
+        pb = b"pset" + b[4:]
+        cases.append(("valid-pset", pb))
+        cases += [(kd, bb) for (kd, bb) in pset_targeted(c.rng, pb)[:8]]
+    for kd, b in cases:
+        if len(b) > 20000:
+            continue
+        L = len(b)
+        for off in sorted({tx_off(b), c.rng.randrange(0, L + 3)}):
+            run_one("view.lnvo", b, nvo(off), "c17.lnvo %d %s" % (off, hx(b)), 9 * (L // 41 + 1) + 4)
+        for pos in sorted({5, c.rng.randrange(0, L + 3)}):
+            run_one("view.skipscope", b, skipscope(pos), "c17.skipscope %d %s" % (pos, hx(b)), 7 * (max(0, L - pos) // 2 + 1))
+        pos = c.rng.randrange(0, L + 3)
+        for l in (c.rng.choice([0, 31, 32, 33, 64, 65]), c.rng.randrange(0, 2 * L + 2), c.rng.choice(BIGN)):
+            run_one("view.hashto", b, hashto(l, pos), "c17.hashto %d %d %s" % (l, pos, hx(b)), 2 * (max(0, L - pos) // 32 + 1))
+
+
 def run(tier, seed):
     c = Check(PROP, MODS, tier, seed)
     c.rule = ("every public parse entry point (36: transactions, scripts, witnesses, PSBT/PSET in all modes, streaming views walked "
@@ -691,6 +793,7 @@ def run(tier, seed):
     explore(c, 8 if tier == "quick" else 120)
     text_cost(c, 400 if tier == "quick" else 4000)
     bin_cost(c, 400 if tier == "quick" else 4000)
+    view_cost(c, 400 if tier == "quick" else 4000)
     return c.finish(search=lambda cc: explore(cc, 40))
 
 
